@@ -369,6 +369,36 @@ func (st *State) intrinsic(key string, callee *ssa.Function, args []Value, pos t
 		m := st.heapGet(name, sort)
 		e.assumes["util.StringFromBytes/BytesFromString (unsafe): modelled as a snapshot copy plus a writable flag; later writes through the shared memory are not reflected in the string"] = true
 		return Value{T: resT, Tm: MkStr4(Select(m, SlRef(b.Tm)), SlOff(b.Tm), SlLen(b.Tm), IntLit(1))}, true
+	case "binary.littleEndian.AppendUint64":
+		// append(b, byte(v), byte(v>>8), ... byte(v>>56)): eight fresh bytes whose little-endian value is v
+		if pkgPath != "encoding/binary" {
+			break
+		}
+		b, v := args[len(args)-2], args[len(args)-1]
+		arr := e.fresh("le64", ArraySort(SInt, SInt))
+		sum := Term{}
+		w := int64(1)
+		var cs []Term
+		for j := int64(0); j < 8; j++ {
+			bj := Select(arr, IntLit(j))
+			cs = append(cs, Le(IntLit(0), bj), Le(bj, IntLit(255)))
+			t := bj
+			if j > 0 {
+				t = Mul(IntLit(w), bj)
+			}
+			if j == 0 {
+				sum = t
+			} else {
+				sum = Add(sum, t)
+			}
+			if j < 7 {
+				w *= 256
+			}
+		}
+		cs = append(cs, Eq(v.Tm, sum))
+		st.assume(And(cs...))
+		e.assumes["encoding/binary LittleEndian.AppendUint64: built-in semantics (appends the eight bytes b0..b7 with v == sum b_j*256^j)"] = true
+		return st.appendOp(b, Value{T: types.Typ[types.String], Tm: MkStr4(arr, IntLit(0), IntLit(8), IntLit(0))}, pos), true
 	case "util.BytesFromString":
 		s := args[0]
 		ref := st.newRef()
@@ -1180,6 +1210,11 @@ func (e *Engine) callWrites(c *ssa.CallCommon, ws *writeSet) {
 	if key == "util.StringFromBytes" {
 		return
 	}
+	if key == "binary.littleEndian.AppendUint64" {
+		n, s := e.memName(types.Typ[types.Uint8])
+		ws.heap[n] = s
+		return
+	}
 	if key == "util.BytesFromString" {
 		n, s := e.memName(types.Typ[types.Uint8])
 		ws.heap[n] = s
@@ -1286,6 +1321,22 @@ func (st *State) havocLoop(li *loopInfo) *writeSet {
 	if ws.all {
 		st.havocAllExcept(ws.except)
 		e.assumes["a loop calls code with an unknown write set: whole heap havocked at that loop"] = true
+	}
+	if fr.spec != nil {
+		if ls := fr.spec.Loops[li.ordinal]; ls != nil {
+			for _, gs := range ls.GhostSets {
+				t := gs[0]
+				for t.Kind == EIndex {
+					t = t.Args[0]
+				}
+				if t.Kind == EIdent {
+					env := st.newEnv(fr, nil)
+					if g := env.ghostVar(t.Op); g != nil {
+						ws.heap[st.ghostHeapName(env, t.Op)] = g.Tm.Sort
+					}
+				}
+			}
+		}
 	}
 	// cells
 	var allocs []*ssa.Alloc
